@@ -33,6 +33,7 @@ class Parser(Emitter):
             if self.debug:
                 traceback.print_exc()
             error = str(formulaserror.from_message(e))
+            formulaserror.forget_traceback(e)
 
         if isinstance(result, formulaserror.XLError):
             error = str(result)
@@ -63,6 +64,7 @@ class Parser(Emitter):
             # an error raised by a function is the value of that call,
             # so that IFERROR & co. can trap it like a returned one
             result['value'] = e
+            formulaserror.forget_traceback(e)
 
         def valsetter(new_value):
             if new_value is not None:
